@@ -181,6 +181,15 @@ def hashToInt (h : Bytes) : Nat :=
   let ret := beToNat (h.take P.frBytes)
   ret >>> (bitLen ret - P.frBits)
 
+/-- SPECIFICATION of the digest-to-integer step (FIPS 186-4 §6.4, SEC 1 §4.1.3: "the leftmost min(N, outlen) bits of Hash(M)"): of the
+    (at most `frBytes`) leading bytes, the excess over `frBits` is counted from the LENGTH of the byte string, not from the bit length of
+    its value. `hashToInt` (the Go rule, used by Sign and Verify alike) shifts less when the digest starts with zero bits and the order
+    has fewer bits than the digest kept: the two differ for about half of all digests on every curve with `frBits < 8·frBytes`
+    (recorded known finding; op ECHF compares the Go function with THIS rule). -/
+def hashToIntFIPS (h : Bytes) : Nat :=
+  let t := h.take P.frBytes
+  beToNat t >>> (8 * t.length - P.frBits)
+
 /-- range check of one signature component -/
 def inRange (x : Nat) : Bool := decide (0 < x) && decide (x < P.n)
 
